@@ -42,6 +42,7 @@ type ovlStore struct {
 	Sets  []ref.ParamSet
 	Def   uint
 	Users map[string]*ovlUser
+	Now   bool // plant records with the current time instead of one hour ago
 }
 
 // ovlMkStore writes base dir, config and reference-written records.
@@ -80,7 +81,11 @@ func (s *ovlStore) Plant(rng *rand.Rand, u ovlUser) {
 	if u.Admin {
 		ext = ".admin"
 	}
-	data := ps.Record([]byte(u.Pw), salt, time.Now().Unix()-3600) + "\n" + u.Aux
+	ts := time.Now().Unix() - 3600
+	if s.Now {
+		ts = time.Now().Unix()
+	}
+	data := ps.Record([]byte(u.Pw), salt, ts) + "\n" + u.Aux
 	os.WriteFile(filepath.Join(s.Base, u.Name+ext), []byte(data), 0600) //nolint:errcheck
 	uu := u
 	s.Users[u.Name] = &uu
